@@ -15,6 +15,7 @@
 package system
 
 import (
+	"math"
 	"reflect"
 	"sync"
 
@@ -144,6 +145,11 @@ func IsValidSystemRule(rule *Rule) error {
 	}
 	if rule.TriggerCount < 0 {
 		return errors.New("negative threshold")
+	}
+	if math.IsNaN(rule.TriggerCount) || math.IsInf(rule.TriggerCount, 0) {
+		// (every comparison with NaN is false: "the value is still below the trigger" never holds and
+		// the rule rejects all inbound traffic; an infinite trigger is no limit at all)
+		return errors.New("trigger count is not a finite number")
 	}
 	if rule.MetricType >= MetricTypeSize {
 		return errors.New("invalid metric type")
